@@ -1225,6 +1225,15 @@ def main(repo: str, outdir: str, dry: bool = False) -> int:
         return (HEADER + "import Optyx.Py.StepSupport\n\nset_option linter.unusedVariables false\n\n"
                 "namespace Optyx.Generated\nopen Optyx Optyx.Py\n\n" + body + "\nend Optyx.Generated\n")
 
+    def f_gradstep():
+        import py2lean
+        try:
+            body = py2lean.gen_grad_step(src("core/autodiff.py"))
+        except py2lean.TranslateError as e:
+            raise TranslateError(str(e))
+        return (HEADER + "import Optyx.Py.GradSupport\n\nset_option linter.unusedVariables false\n\n"
+                "namespace Optyx.Generated\nopen Optyx Optyx.Py\n\n" + body + "\nend Optyx.Generated\n")
+
     def f_sort():
         return HEADER + "namespace Optyx.Generated\n\n" + gen_sort_glue(repo) + "\nend Optyx.Generated\n"
 
@@ -1244,7 +1253,7 @@ def main(repo: str, outdir: str, dry: bool = False) -> int:
     for fname, make in (("GradRules", f_rules), ("Tables", f_tables), ("Closures", f_closures), ("SolverGlue", f_glue),
                         ("JacRow", f_jacrow), ("InitPoint", f_init), ("Dispatch", f_dispatch),
                         ("ApiGlue", f_apiglue), ("LPGlue", f_lpglue), ("SortGlue", f_sort),
-                        ("DegreeStep", f_degstep)):
+                        ("DegreeStep", f_degstep), ("GradStep", f_gradstep)):
         path = os.path.join(outdir, fname + ".lean")
         try:
             text = make()
